@@ -1081,7 +1081,12 @@ fn cmd_pipeline(args: &[String]) {
             for b in &raw {
                 match codec {
                     "string" => {
-                        let s: String = b.iter().map(|x| (b'a' + (x % 26)) as char).collect::<String>() + "é✓";
+                        // text classes are text: they go through the string codec as they are; other payloads
+                        // are arbitrary bytes and are mapped to letters
+                        let s: String = match std::str::from_utf8(b) {
+                            Ok(t) if pclass == "text_edge" || pclass == "bom_text" || pclass == "text_8k" => t.to_string(),
+                            _ => b.iter().map(|x| (b'a' + (x % 26)) as char).collect::<String>() + "é✓",
+                        };
                         encoded.push(StringCodec.encode(s.clone()).map_err(|e| e.to_string())?);
                         values.push(json!(s));
                     }
